@@ -1,7 +1,7 @@
 #!/bin/bash
 # tools/wtcheck.sh <seed id> <check> [tier]: runs one check against a scratch worktree (/tmp/seeds/wt-<Cxx>) with the
 # seeded change applied (diagnosis while /repo is busy; the recorded result comes from tools/seed.py recheck).
-id=$1; c=$2; tier=${3:-quick}; W=/tmp/seeds/wt-${id%%-*}
+id=$1; c=$2; tier=${3:-quick}; W=${SEED_WT_PREFIX:-/tmp/seeds/wt-}${id%%-*}
 git -C $W checkout -q -- . ; git -C $W clean -qfd
 git -C $W apply /verif/seeded/$id/patch.diff || exit 2
 cd /verif && VERIF_REPO=$W VERIF_EVIDENCE_DIR=/verif/.build/ev-wt-$id ./check $c --tier $tier 2>&1 | tail -4 | cut -c1-400
